@@ -190,6 +190,21 @@ def shape_flags(prog):
                 return True
             return any(lam_with_try(v) for v in x.values())
         return isinstance(x, list) and any(lam_with_try(v) for v in x)
+    rec_globals = set(d_["x"] for d_ in prog["top"] if d_.get("d") == "var" and isinstance(d_.get("t"), list) and d_["t"][0] == "rec")
+
+    def top_alias(x):
+        if isinstance(x, dict):
+            if x.get("e") in ("lam", "gen"):
+                return False
+            if x.get("e") == "asg" and x["x"] in rec_globals and isinstance(x.get("v"), dict) and x["v"].get("e") == "var" \
+                    and x["v"]["x"] in rec_globals and x["v"]["x"] != x["x"]:
+                return True
+            return any(top_alias(v) for v in x.values())
+        return isinstance(x, list) and any(top_alias(v) for v in x)
+    if any(top_alias(d_.get("x")) for d_ in prog["top"] if d_.get("d") == "stmt") or \
+            any(d_.get("d") == "var" and isinstance(d_.get("init"), dict) and d_["init"].get("e") == "var" and d_["init"]["x"] in rec_globals
+                for d_ in prog["top"]):
+        flags.add("file-level-record-alias")
     for f in prog["top"]:
         walk(f, False, False, False)
     for f in prog["funs"]:
@@ -228,15 +243,17 @@ class Family(object):
 
 def observation(res, cls, group_compile_failed, group_compile_timeout=False):
     """What an agreement property (C03) compares between routes: the program's output and exit class, or the fact that the
-    compiler produced nothing to run.  The one-step interpreter route reports a compiler failure in phase 'interp'; it is
-    recognised through its sibling routes of the same level."""
-    if res.get("timeout"):
-        return ("timeout", "compile" if res["phase"] == "compile" or group_compile_timeout else "run")
+    compiler produced nothing to run (it faulted, rejected the program or did not terminate: one observation, because the
+    same runaway ends as a time-out on one route and as a stack overflow on the other).  The one-step interpreter route
+    reports a compiler failure in phase 'interp'; it is recognised through its sibling routes of the same level."""
+    trouble = group_compile_failed or group_compile_timeout
     if res["phase"] == "compile":
         return ("compile-failed",)
-    if group_compile_failed and cls is not None and cls[0] in ("fault", "compile-reject") and res["phase"] == "interp" \
-            and ("Compiler bug" in res["out"] + res["err"] or "(Error)" in res["out"] + res["err"]
-                 or "Program fault" in res["out"] + res["err"]):
+    if res.get("timeout"):
+        return ("compile-failed",) if trouble else ("timeout", "run")
+    both = res["out"] + res["err"]
+    if trouble and cls is not None and cls[0] in ("fault", "compile-reject") and res["phase"] == "interp" \
+            and ("Compiler bug" in both or "(Error)" in both or "Program fault" in both or (res["rc"] is not None and res["rc"] < 0)):
         return ("compile-failed",)
     return (program_output(res), res["rc"] == 0)
 
